@@ -127,3 +127,93 @@ def _track_site(repo):
     found.sort()
     names = [n for _, n in found]
     return names, "def fuelTrackSite : List String := [" + ", ".join(lean_str(n) for n in names) + "]"
+
+
+# ------------------------------------------------------------------------------------------------
+# readers of the tracker, classified by whether a template can get at what they read
+_OUTPUT_FILES = re.compile(r"^(minijinja/src/(functions|filters|tests|defaults|output|utils|macros|error)\.rs|minijinja/src/value/|minijinja-contrib/)")
+
+
+@item("C13_FUEL_READERS")
+def _fuel_readers(repo):
+    files = sorted(glob.glob(os.path.join(repo, "minijinja/src/**/*.rs"), recursive=True)
+                   + glob.glob(os.path.join(repo, "minijinja-contrib/src/**/*.rs"), recursive=True))
+    rows = []
+    for path in files:
+        rel = os.path.relpath(path, repo)
+        if rel == "minijinja/src/vm/fuel.rs":
+            continue
+        lines = _strip_comments(open(path, encoding="utf-8").read()).split("\n")
+        for idx, line in enumerate(lines):
+            if re.match(r"\s*#\[", line):
+                continue
+            what = []
+            if re.search(r"\bfuel_levels\s*\(", line) and not re.search(r"\bfn\s+fuel_levels\b", line):
+                what.append("calls fuel_levels()")
+            if re.search(r"\bfuel_tracker\b", line) and not re.search(r"\bfuel_tracker\s*:", line):
+                what.append("reads fuel_tracker")
+            if re.search(r"\.remaining\(\)|\.consumed\(\)", line):
+                what.append("reads levels")
+            if not what:
+                continue
+            encl = _enclosing(lines, idx)
+            # an `impl fmt::Debug/Display for X { fn fmt }` is what `{{ debug() }}`, `{:?}` of a
+            # Captured and every Rust callable formatting the state put into the output
+            if encl == "fn fmt" or _OUTPUT_FILES.match(rel):
+                cls = "reachable from template output"
+            elif encl == "fn fuel_levels":
+                cls = "rust api State::fuel_levels"
+            elif encl == "fn eval_impl":
+                cls = "accounting"
+            else:
+                cls = "other engine code"
+            rows.append((rel.replace("minijinja/src/", ""), encl, "+".join(what), cls))
+    rows.sort()
+    lean = ("def fuelReaders : List (String × String × String × String) := [\n  "
+            + ",\n  ".join("(" + ", ".join(lean_str(x) for x in row) + ")" for row in rows) + "]")
+    return rows, lean
+
+
+# ------------------------------------------------------------------------------------------------
+# entry points: every way to start an evaluation ends in State::new (which reads env.fuel())
+_ENTRY_NODES = [
+    ("Template::render", "minijinja/src/template.rs", r"pub fn render\s*<"),
+    ("Template::render_captured", "minijinja/src/template.rs", r"pub fn render_captured\s*<"),
+    ("Template::render_captured_to", "minijinja/src/template.rs", r"pub fn render_captured_to\s*<"),
+    ("Template::_render", "minijinja/src/template.rs", r"fn _render\s*\("),
+    ("Template::_capture_state", "minijinja/src/template.rs", r"fn _capture_state\s*\("),
+    ("Template::_capture_state_with_output", "minijinja/src/template.rs", r"fn _capture_state_with_output\s*<"),
+    ("Template::_eval", "minijinja/src/template.rs", r"fn _eval\s*\("),
+    ("Template::new_state", "minijinja/src/template.rs", r"pub fn new_state\s*\("),
+    ("Expression::eval", "minijinja/src/expression.rs", r"pub fn eval\s*<"),
+    ("Expression::_eval", "minijinja/src/expression.rs", r"fn _eval\s*\("),
+    ("Environment::render_str", "minijinja/src/environment.rs", r"pub fn render_str\s*<"),
+    ("Environment::render_named_str", "minijinja/src/environment.rs", r"pub fn render_named_str\s*<"),
+    ("Environment::empty_state", "minijinja/src/environment.rs", r"pub fn empty_state\s*\("),
+    ("vm::eval", "minijinja/src/vm/mod.rs", r"pub\(crate\) fn eval\s*<'env, 'template>"),
+    ("Executor::eval", "minijinja/src/vm/mod.rs", r"pub\(crate\) fn eval\s*<'template>"),
+    ("State::new_for_env", "minijinja/src/vm/state.rs", r"fn new_for_env\s*\("),
+]
+_CALLEES = [
+    (r"\._render\(", "{T}::_render"), (r"\._capture_state\(", "{T}::_capture_state"),
+    (r"\._capture_state_with_output\(", "{T}::_capture_state_with_output"), (r"\._eval\(", "{T}::_eval"),
+    (r"\bvm::eval\(", "vm::eval"), (r"\bExecutor::eval\(", "Executor::eval"), (r"\bState::new\(", "State::new"),
+    (r"\bState::new_for_env\(", "State::new_for_env"), (r"\.render\(", "Template::render"),
+]
+
+
+@item("C13_ENTRY_CALLS")
+def _entry_calls(repo):
+    rows = []
+    for node, rel, header in _ENTRY_NODES:
+        src = _strip_comments(read(repo, rel))
+        ms = list(re.finditer(header, src))
+        if len(ms) != 1:
+            raise KeyError(f"entry point {node}: expected one definition in {rel}, found {len(ms)}")
+        body = fn_body(src[ms[0].start():], r"\)\s*(?:->\s*[^{;]+)?\{")
+        owner = node.split("::")[0]
+        callees = sorted({c.replace("{T}", owner) for rx, c in _CALLEES if re.search(rx, body)})
+        rows.append((node, callees))
+    lean = ("def fuelEntryCalls : List (String × List String) := [\n  "
+            + ",\n  ".join(f"({lean_str(n)}, [" + ", ".join(lean_str(c) for c in cs) + "])" for n, cs in rows) + "]")
+    return rows, lean
